@@ -332,8 +332,8 @@ def run(model, rep, tier):
     rep.assume("tuple and collections.abc.Mapping provide no mutating methods (interpreter builtins, introspected with hasattr)")
     rep.assume("a frozen dns.btree.BTreeDict rejects mutation (decided under C19 R-19.2)")
     rep.share(model, "C12", {"R-12.1"}, "R-11.7", "reader(id=N) pins version N only if pruning cannot run concurrently with its lookup-and-register step")
-    rep.share(model, "C10", {"R-10.2", "R-10.5"}, "R-11.6", "ImmutableVersion.__init__ looks every name of version.changed up in version.nodes and replaces the node by a frozen one")
-    rep.share(model, "C19", {"R-19.1"}, "R-11.5", "a reader's version shares B-tree nodes with every later writable version")
+    rep.share(model, "C10", {"R-10.2", "R-10.4", "R-10.5"}, "R-11.6", "ImmutableVersion.__init__ looks every name of version.changed up in version.nodes and replaces the node by a frozen one")
+    rep.share(model, "C19", {"R-19.1", "R-19.2"}, "R-11.5", "a reader's version shares B-tree nodes with every later writable version")
     rep.share(model, "C07", {"R-07.8"}, "R-11.5", "committed rdatasets are frozen by wrapping their items in dns.immutable.Dict")
     rep.meta["explanation"] = (
         "Write-set (effect) analysis of every method reachable on the snapshot classes, resolved in the context of each immutable subclass; "
